@@ -121,6 +121,17 @@ func fieldLoad(v ssa.Value) (*types.Var, ssa.Value) {
 			if fa, ok := x.X.(*ssa.FieldAddr); ok {
 				return fieldOfAddr(fa), fa.X
 			}
+			// `*q` in a pointer-receiver method of a container type that exactly one field has
+			if prm, ok := x.X.(*ssa.Parameter); ok {
+				if f := containerFieldOfRecv(prm); f != nil {
+					return f, nil
+				}
+			}
+		}
+	case *ssa.Parameter:
+		// the value receiver of a method of such a container type
+		if f := containerFieldOfRecv(x); f != nil {
+			return f, nil
 		}
 	case *ssa.Field:
 		if st, ok := x.X.Type().Underlying().(*types.Struct); ok {
@@ -386,4 +397,25 @@ func substParams(sf *ssa.Function, args []ssa.Value, v ssa.Value, depth int) (ou
 		}
 	}
 	return v, false
+}
+
+// containerTypeField maps a named slice or map type of the repository
+// (`type taskQueue []func()`, `type ridPath []string`) to the one struct field
+// that has this type. Inside the type's methods the receiver stands for that
+// field: a queue, set or path wrapped into a small type keeps its identity.
+var containerTypeField = map[*types.Named]*types.Var{}
+
+func containerFieldOfRecv(prm *ssa.Parameter) *types.Var {
+	fn := prm.Parent()
+	if fn == nil || fn.Signature.Recv() == nil || len(fn.Params) == 0 || fn.Params[0] != prm {
+		return nil
+	}
+	t := prm.Type()
+	if pt, ok := t.(*types.Pointer); ok {
+		t = pt.Elem()
+	}
+	if n, ok := t.(*types.Named); ok {
+		return containerTypeField[n]
+	}
+	return nil
 }
